@@ -135,11 +135,12 @@ def gen_start(rng, spec, box_ok=True):
         x0 = [_dy(rng, -48, 48, 16) for _ in range(n)]
     if box_ok and rng.random() < 0.3:
         r = max(abs(v) for v in x0) + rng.choice([0.125, 0.5, 1.0, 2.0])
-        spec["box"] = [r, rng.choice(["nan", "fpe", "huge", "inf"])]
+        spec["box"] = [r, rng.choice(["nan", "fpe", "fpe", "huge", "inf"])]
     return x0
 
 
-DIR_KINDS = ["sd", "sd", "scaled", "scaled", "scaled", "newton", "rand", "uphill", "ortho", "zero"]
+DIR_KINDS = ["sd", "sd", "sd", "scaled", "scaled", "scaled", "scaled", "scaled", "newton", "newton", "rand", "rand",
+             "uphill", "ortho", "zero"]
 
 
 def gen_direction(rng, spec, x0, kind):
@@ -149,7 +150,7 @@ def gen_direction(rng, spec, x0, kind):
     if kind == "sd":
         d = -g
     elif kind == "scaled":
-        d = -g * 2.0 ** rng.randint(-12, 8)
+        d = -g * 2.0 ** (rng.randint(0, 10) if spec.get("box") else rng.randint(-12, 8))
     elif kind == "newton":
         h = np.array(I.poly_diag_hess(spec["terms"], [float(v) for v in x0]))
         d = -g / (np.abs(h) + 0.5)
@@ -667,17 +668,19 @@ def run(ctx):
         rec = json.load(open(path))
         _dispatch(ctx, batch, rec.get("case", rec))
         ctx.stat("corpus")
-    for _ in range(ctx.n(160, 2500)):
-        do_ls(ctx, batch, gen_ls_case(ctx.rng))
-    for _ in range(ctx.n(300, 5000)):
-        do_ls(ctx, batch, gen_lsscript_case(ctx.rng))
-    for _ in range(ctx.n(40, 500)):
-        do_min(ctx, batch, gen_min_case(ctx.rng))
-    for _ in range(ctx.n(400, 6000)):
-        do_script(ctx, batch, gen_script_case(ctx.rng))
-    for _ in range(ctx.n(50, 700)):
-        do_twins(ctx, batch, gen_twins_case(ctx.rng))
-    batch.flush(ctx)
+    rounds = ctx.n(1, 10)          # thorough: 10 batches of the quick size with fresh draws
+    for _ in range(rounds):
+        for _ in range(160):
+            do_ls(ctx, batch, gen_ls_case(ctx.rng))
+        for _ in range(300):
+            do_ls(ctx, batch, gen_lsscript_case(ctx.rng))
+        for _ in range(40):
+            do_min(ctx, batch, gen_min_case(ctx.rng))
+        for _ in range(400):
+            do_script(ctx, batch, gen_script_case(ctx.rng))
+        for _ in range(50):
+            do_twins(ctx, batch, gen_twins_case(ctx.rng))
+        batch.flush(ctx)
 
 
 def search(ctx):
